@@ -272,6 +272,10 @@ class Run(object):
                     self.sim.event("650 HS_DESC FAILED %s UNKNOWN %s REASON=UPLOAD_REJECTED\r\n" % (SID, d1))
                 else:
                     self.sim.event("650 HS_DESC UPLOADED %s UNKNOWN %s\r\n" % (SID, d1))
+            elif a == "Foreign" and e.get("kind") == "fetchfail":
+                # somebody using this Tor looked our address up before it was published: Tor reports the failed
+                # *fetch* with the same event word, for our address, naming a directory no upload was announced to
+                self.sim.event("650 HS_DESC FAILED %s NO_AUTH $%s REASON=NOT_FOUND\r\n" % (SID, "EF" * 20))
             elif a == "Foreign":
                 other, d2 = "otherotherother3", "$" + "CD" * 20
                 self.sim.event("650 HS_DESC UPLOAD %s UNKNOWN %s desc\r\n" % (other, d2))
